@@ -36,6 +36,19 @@
 #include <string.h>
 #include <pthread.h>
 
+/* verification hooks: see include/erasurecode/erasurecode_verif.h (this file is
+ * built into two libraries, so the few lines it needs are repeated here) */
+#ifdef LIBERASURECODE_VERIF
+void liberasurecode_verif_yield(int point);
+int verif_mutex_lock(void *lock);
+int verif_mutex_unlock(void *lock);
+#define VERIF_YIELD(p) liberasurecode_verif_yield(p)
+#define pthread_mutex_lock(l) verif_mutex_lock(l)
+#define pthread_mutex_unlock(l) verif_mutex_unlock(l)
+#else
+#define VERIF_YIELD(p)
+#endif
+
 // We are only implementing w=16 here.  If you want to use something
 // else, then use Jerasure with GF-Complete or ISA-L.
 #define PRIM_POLY 0x1100b
@@ -51,14 +64,19 @@ static pthread_mutex_t init_mutex = PTHREAD_MUTEX_INITIALIZER;
 
 void rs_galois_init_tables(void)
 {
+  VERIF_YIELD(20);
   pthread_mutex_lock(&init_mutex);
   if (init_counter++ > 0) {
     /* already initialized */
+    VERIF_YIELD(21);
     pthread_mutex_unlock(&init_mutex);
     return;
   }
+  VERIF_YIELD(22);
   log_table = (int*)malloc(sizeof(int)*FIELD_SIZE);
+  VERIF_YIELD(23);
   ilog_table_begin = (int*)malloc(sizeof(int)*FIELD_SIZE*3);
+  VERIF_YIELD(24);
   int i = 0;
   int x = 1;
 
@@ -72,24 +90,31 @@ void rs_galois_init_tables(void)
       x ^= PRIM_POLY;
     }
   }
+  VERIF_YIELD(25);
   ilog_table = &ilog_table_begin[GROUP_SIZE];
+  VERIF_YIELD(26);
   pthread_mutex_unlock(&init_mutex);
 }
 
 void rs_galois_deinit_tables(void)
 {
+  VERIF_YIELD(27);
   pthread_mutex_lock(&init_mutex);
   init_counter--;
+  VERIF_YIELD(28);
   if (init_counter < 0) {
     /* deinit when not initialized?? */
     init_counter = 0;
   } else if (init_counter > 0) {
     /* still at least one desc using it */
   } else {
+    VERIF_YIELD(29);
     free(log_table);
     log_table = NULL;
+    VERIF_YIELD(30);
     free(ilog_table_begin);
     ilog_table_begin = NULL;
+    VERIF_YIELD(31);
   }
   pthread_mutex_unlock(&init_mutex);
 }
